@@ -270,8 +270,16 @@ Definition reachable_inv_stmt : Prop :=
     Forall fits (wrun u world_new ops) -> Forall (WInv u) (wrun u world_new ops).
 
 (* consequences of the invariant for the read accessors (C01/C02/C08 base facts) *)
-Definition iter_matches_abs_stmt : Prop :=
+(* without the id-space bound the statement is false of the model and of the code (row index
+   2^32-1 is also the "no row" placeholder): WorldProofs1.v proves ~ iter_matches_abs_nofits_stmt *)
+Definition iter_matches_abs_nofits_stmt : Prop :=
   forall u w, WInv u w -> flushed w ->
+    NoDup (map (fun p => e_id (fst p)) (w_iter w)) /\
+    lenN (w_iter w) = w_len w /\
+    (forall h l, In (h, l) (w_iter w) <-> (abs w h = Some l /\ get_mut (w_ents w) h <> None)).
+
+Definition iter_matches_abs_stmt : Prop :=
+  forall u w, WInv u w -> fits w -> flushed w ->
     NoDup (map (fun p => e_id (fst p)) (w_iter w)) /\
     lenN (w_iter w) = w_len w /\
     (forall h l, In (h, l) (w_iter w) <-> (abs w h = Some l /\ get_mut (w_ents w) h <> None)).
